@@ -148,6 +148,20 @@ Theorem is_none_exact : forall t vs,
   spec_is_none 0 t vs = Ok (VList (map (fun v => VBool (is_none v)) vs)).
 Proof. exact is_none_exact_lemma. Qed.
 Print Assumptions is_none_exact.
+(* ... also through a union, whose alternatives may carry the missing values (option below the union), at the
+   outermost level and one level down (a missing list stays missing) *)
+Theorem is_none_union_exact : forall ts vs,
+  spec_is_none 0 (TUnion ts) vs = Ok (VList (map (fun v => VBool (is_none v)) vs)).
+Proof. exact is_none_union_exact_lemma. Qed.
+Print Assumptions is_none_union_exact.
+Theorem is_none_union_axis1 : forall ts (ls : list (option (list value))),
+  spec_is_none 1 (TUnion ts) (map (fun o => match o with Some l => VList l | None => VNone end) ls) =
+  Ok (VList (map (fun o => match o with
+                           | Some l => VList (map (fun v => VBool (is_none v)) l)
+                           | None => VNone
+                           end) ls)).
+Proof. exact is_none_union_axis1_lemma. Qed.
+Print Assumptions is_none_union_axis1.
 Theorem is_none_exact_axis1 : forall sz te (ls : list (list value)),
   spec_is_none 1 (TList sz None te) (map VList ls) =
   Ok (VList (map (fun l => VList (map (fun v => VBool (is_none v)) l)) ls)).
